@@ -7,7 +7,7 @@
    regenerated ones.  Statements only; proofs in Proofs/FinalSourceProofs.v.  Oracles (universally quantified): the argmin over the
    quantile scores, sqrt(2) * erfcinv(.), the re-estimated history values, the observations, NumPy's mean and standard deviation. *)
 From Coq Require Import ZArith QArith List Bool String.
-From PV Require Import Model.Val Model.Skeleton Model.SkeletonValid Model.SkeletonNoisy Model.History gen.Src_final Model.FinalSrc
+From PV Require Import Model.Val Model.Skeleton Model.SkeletonValid Model.SkeletonNoisy Model.History Model.FinalLib gen.Src_final Model.FinalSrc
   Proofs.SkeletonFinal Proofs.FinalSourceProofs.
 Import ListNotations.
 Open Scope Z_scope.
@@ -15,9 +15,9 @@ Open Scope Z_scope.
 (* C05: the final phase of the skeleton, every decision read from the source: whether the noisy end-game runs (uncertainty level and
    completed poll iterations), whether the chosen iterate is re-sampled, how many logger calls the loop makes, and the vector stored
    as yval_vec (the fresh observations, supplemented by the observed value of the chosen iterate when there is exactly one).  level is
-   optim_state['uncertainty_handling_level']; sdsq, cf, cs, sdlast, spec are the inputs of the generated vector that the y vector
+   optim_state['uncertainty_handling_level']; sdsq, cf, cs, sdsup, spec are the inputs of the generated vector that the y vector
    does not depend on. *)
-Theorem C05_final_phase_is_source : forall (o : opts) (nfs level : Z) (ev : final_ev) (s : st) (sdsq : list Q) (cf cs sdlast : Q) (spec : bool),
+Theorem C05_final_phase_is_source : forall (o : opts) (nfs level : Z) (ev : final_ev) (s : st) (sdsq : list Q) (cf cs sdsup : Q) (spec : bool),
   o_det o = (level =? 0) -> 0 <= level ->
   final_phase o nfs ev s =
   if exn s then mkFO s [] [] false else
@@ -30,7 +30,7 @@ Theorem C05_final_phase_is_source : forall (o : opts) (nfs level : Z) (ev : fina
       if negb (src_fs_guard nfs) then mkFO s1 [] [] false else
       let '(s2, ys, sds) := final_samples s1 (i_u c) (Z.to_nat (src_fs_count nfs)) (fe_obs ev) [] [] in
       if exn s2 then mkFO s2 ys sds true else
-      mkFO (set_cur s2 (mkI (i_u c) (i_y c) (fe_mean ev) (fe_sem ev))) (src_fs_yvec ys sdsq (i_y c) cf cs sdlast spec) sds true
+      mkFO (set_cur s2 (mkI (i_u c) (i_y c) (fe_mean ev) (fe_sem ev))) (src_fs_yvec ys sdsq (i_y c) cf cs sdsup spec) sds true
   end.
 Proof. exact final_phase_is_source. Qed.
 Print Assumptions C05_final_phase_is_source.
@@ -41,30 +41,35 @@ Theorem C05_resampling_block_is_source :
   (forall nfs, src_fs_guard nfs = negb (nfs <=? 0)) /\
   (forall nfs, src_fs_count nfs = nfs /\ src_fs_alloc_y nfs = src_fs_count nfs /\ src_fs_alloc_sd nfs = src_fs_count nfs) /\
   (forall n, src_fs_suppl_guard n = (n =? 1)) /\
-  (forall ys sds cy cf cs sdlast spec, src_fs_yvec ys sds cy cf cs sdlast spec = match ys with [y] => [y; cy] | _ => ys end) /\
-  (forall ys sds cy cf cs sdlast spec,
-     src_fs_sdvec ys sds cy cf cs sdlast spec = match ys with [_] => if spec then sds ++ [sdlast] else sds | _ => sds end).
+  (forall ys sds cy cf cs sdsup spec, src_fs_yvec ys sds cy cf cs sdsup spec = match ys with [y] => [y; cy] | _ => ys end) /\
+  (forall ys sds cy cf cs sdsup spec,
+     src_fs_sdvec ys sds cy cf cs sdsup spec = match ys with [_] => if spec then sds ++ [sdsup] else sds | _ => sds end).
 Proof. exact (conj final_guard_is_source (conj fs_guard_is_source (conj fs_count_is_source (conj suppl_guard_is_source (conj yvec_is_source sdvec_is_source))))). Qed.
 Print Assumptions C05_resampling_block_is_source.
 
 (* PARTIAL: the skeleton's SD vector [fo_sdvec] holds only the SDs reported with the fresh samples; it is the PREFIX of the vector the
    code stores.  Missing: the supplement entry the code appends when exactly one final sample is taken under specified noise -
-   function_logger.S[function_logger.Xn], the SD of the LAST logged row, which the model does not carry (and which need not be the row
-   of the returned point: see the report). *)
-Theorem C05_sd_vector_is_source_partial : forall ys sds cy cf cs sdlast spec,
-  firstn (List.length sds) (src_fs_sdvec ys sds cy cf cs sdlast spec) = sds.
+   the value src_fs_sdsuppl computes from the log (C05_sd_supplement_is_sd_at_x below), which the skeleton does not carry. *)
+Theorem C05_sd_vector_is_source_partial : forall ys sds cy cf cs sdsup spec,
+  firstn (List.length sds) (src_fs_sdvec ys sds cy cf cs sdsup spec) = sds.
 Proof. exact sdvec_prefix. Qed.
 Print Assumptions C05_sd_vector_is_source_partial.
 
-(* REFUTED (open known finding ysd-supplement-not-at-x, replayed on the real code by the monitor mon_c05_sdsuppl): "the SD paired with the supplemented
-   observation is the SD reported at the returned point".  The generated supplement is S[Xn], the SD of the LAST logged row: for a log whose last row
-   holds another point, no row holding the chosen point carries that SD. *)
-Theorem C05_sd_supplement_is_sd_at_x_refuted : exists (logu : list (list Q)) (logS : list Q) (u : list Q) (y sd cy : Q),
-  let sdlast := last logS (0 # 1) in
-  In u logu /\
-  forall i, nth_error logu i = Some u -> nth_error logS i <> Some (last (src_fs_sdvec [y] [sd] cy (0 # 1) (0 # 1) sdlast true) (0 # 1)).
-Proof. exact sd_supplement_is_sd_at_x_refuted. Qed.
-Print Assumptions C05_sd_supplement_is_sd_at_x_refuted.
+(* C05 (repair of the finding ysd-supplement-not-at-x): the SD paired with the supplemented observation is the SD LOGGED AT THE RETURNED POINT.
+   src_fs_sdsuppl is generated from the statements that compute the supplement (the search of the logged rows X[: Xn + 1] for self.u, the choice of the
+   first match, the read of S): for every log, point and row count, if some logged row equals u the supplement is the SD of the FIRST such row;
+   if none does it is the SD of the last logged row (the code's fallback).  The old form S[Xn] generates another definition and fails this proof. *)
+Theorem C05_sd_supplement_is_sd_at_x :
+  (forall logX logS u xn i r,
+     0 <= xn -> (i <= Z.to_nat xn)%nat ->
+     nth_error logX i = Some r -> qrow_eqb r u = true ->
+     (forall j r', (j < i)%nat -> nth_error logX j = Some r' -> qrow_eqb r' u = false) ->
+     src_fs_sdsuppl logX logS u xn = nth i logS 0%Q) /\
+  (forall logX logS u xn,
+     0 <= xn -> (forall j r', (j <= Z.to_nat xn)%nat -> nth_error logX j = Some r' -> qrow_eqb r' u = false) ->
+     src_fs_sdsuppl logX logS u xn = nth (Z.to_nat xn) logS 0%Q).
+Proof. exact sd_supplement_is_sd_at_x. Qed.
+Print Assumptions C05_sd_supplement_is_sd_at_x.
 
 (* C05: the four restored incumbent fields come from ONE history row: the generated index expressions of yval, fval, fsd and u are the
    same expression - the argmin over the scores without their first row, plus one - the generated keys are the four columns in that
